@@ -175,3 +175,28 @@ pub(super) fn enc_ser_cases(cx: &mut Cx, e: &ContextualHuffmanEncoder, kind: u8,
         cx.coq(10, a, &bytes, expect, what, force);
     }
 }
+
+/// ContextualHuffmanEncoder::new against the model of its counting loops (op 11).  `v` = the view of the real encoder.
+/// The heap of from_frequencies is outside the model: an order-0 tree over two or more symbols is not predicted, so such
+/// encoders are skipped; every other tree the constructors build holds all 256 symbols (fixed 8-bit codes).
+pub(super) fn ctx_new_case(cx: &mut Cx, order: u64, train: &[u8], v: &EncView, force: bool) {
+    if v.order == 0 {
+        let mut seen = [false; 256];
+        for &b in train { seen[b as usize] = true; }
+        if seen.iter().filter(|x| **x).count() > 1 { return; }
+    }
+    let mut by_idx = v.ctx.clone();
+    by_idx.sort_by_key(|p| p.1);
+    let mut a = vec![order as u128];
+    a.extend(by_idx.iter().map(|p| p.0 as u128));
+    let mut ex = vec![1u128, v.order as u128, v.trees.len() as u128, v.ctx.len() as u128];
+    for (c, i) in &by_idx { ex.push(*c as u128); ex.push(*i as u128); }
+    for t in &v.trees {
+        let identity = t.len() == 256 && t.iter().enumerate().all(|(i, (s, c))| *s as usize == i && c.len() == 8 && (0..8).all(|b| c[b] == ((i >> b) & 1 == 1)));
+        if identity { ex.push(1); } else {
+            ex.push(0);
+            match flat_table(t) { Some(f) => ex.extend(f), None => return }
+        }
+    }
+    cx.coq_w(11, a, train, ex, "ContextualHuffmanEncoder::new", force, 14000);
+}
